@@ -3053,6 +3053,15 @@ impl<'a> QueryServerWriteTransaction<'a> {
         #[cfg(feature = "verif-hooks")]
         let _ = crate::verif_hooks::point("qs.c.ts_max");
         be_txn.set_db_ts_max(cid.ts)?;
+
+        // Commit the database first. This is the only step that can fail, and if it does
+        // then nothing of this transaction may become visible - the in-memory server state
+        // below must only be published once the changes it was built from are durable.
+        be_txn.commit()?;
+
+        // Point of no return - everything has been validated, reloaded and stored.
+        //
+        // = Lets commit =
         #[cfg(feature = "verif-hooks")]
         let _ = crate::verif_hooks::point("qs.c.cid");
         cid.commit();
@@ -3063,9 +3072,6 @@ impl<'a> QueryServerWriteTransaction<'a> {
         }
         resolve_filter_cache_write.commit();
 
-        // Point of no return - everything has been validated and reloaded.
-        //
-        // = Lets commit =
         #[cfg(feature = "verif-hooks")]
         let _ = crate::verif_hooks::point("qs.c.publish");
         schema
@@ -3077,7 +3083,6 @@ impl<'a> QueryServerWriteTransaction<'a> {
             .map(|_| dyngroup_cache.commit())
             .and_then(|_| key_providers.commit())
             .and_then(|_| accesscontrols.commit())
-            .and_then(|_| be_txn.commit())
     }
 
     pub(crate) fn get_txn_cid(&self) -> &Cid {
